@@ -147,12 +147,78 @@ pub fn replay_any(check_name: &str, case: &Value, known: &Known) -> Option<Outco
     if check_name == "probe" {
         return c01::replay_any(check_name, case, known);
     }
+    if check_name == "distinct-on-order" {
+        let c: DistinctOnCase = serde_json::from_value(case.clone()).ok()?;
+        return Some(check_distinct_on(&c, known));
+    }
     let c: Case3 = serde_json::from_value(case.clone()).ok()?;
     Some(check(&c, known, check_name.starts_with("hazard/")))
 }
 
+// ---------------------------------------------------------------------------------------
+// `group k (sort s | take 1)` under the dialects that implement it with DISTINCT ON (not
+// executable here): the row at position 1 of each group is the first row of the block's own
+// ORDER BY, which therefore has to be there, begin with the keys and continue with the sort, in
+// whatever context the group stands (operand of a set operation, inside a CTE, before a join ...).
+
+#[derive(Clone, Debug, serde::Serialize, serde::Deserialize)]
+pub struct DistinctOnCase {
+    pub source: String,
+    pub dialect: String,
+}
+
+pub fn gen_distinct_on_case(t: &mut crate::tape::Tape) -> DistinctOnCase {
+    let keys = *t.pick(&["a", "a, b", "b"]);
+    let sort = *t.pick(&["-id", "b, -id", "id", "-b, id", "(a + id)"]);
+    let pre = *t.pick(&["", " | filter id > 0", " | derive {c = a + b}"]);
+    let grp = format!("from t1 | select {{id, a, b}}{pre} | select {{id, a, b}} | group {{{keys}}} (sort {{{sort}}} | take 1)");
+    let other = "(from t2 | select {id, a, b})";
+    let source = match t.choose(14) {
+        0 => grp.clone(),
+        1 => format!("{grp} | append {other}"),
+        2 => format!("{grp} | remove {other}"),
+        3 => format!("{grp} | intersect {other}"),
+        4 => format!("{grp} | derive {{z = id + 1}}"),
+        5 => format!("{grp} | filter id > 1"),
+        6 => format!("{grp} | sort {{a}} | take 3"),
+        7 => format!("{grp} | join side:left r = (from t2 | select {{k2 = id}}) (id == r.k2)"),
+        8 => format!("from t2 | select {{id, a, b}} | append ({grp})"),
+        9 => format!("let l = ({grp})\nfrom l | append {other}"),
+        10 => format!("{grp} | append ({grp})"),
+        11 => format!("{grp} | append {other} | append {other} | filter a > 0"),
+        12 => format!("{grp} | append {other} | sort {{id}} | take 5"),
+        _ => format!("let l = ({grp} | append {other})\nfrom l | join side:inner t2 (l.id == t2.id) | select {{l.id, t2.a}}"),
+    };
+    DistinctOnCase { source: format!("{source}\n"), dialect: t.pick(&["postgres", "duckdb", "clickhouse", "redshift"]).to_string() }
+}
+
+pub fn check_distinct_on(c: &DistinctOnCase, _known: &Known) -> Outcome {
+    let mut out = Outcome::pass();
+    out.key = crate::runner::hash_of(&(&c.source, &c.dialect));
+    let sql = match crate::util::compile(&c.source, crate::util::dialect_by_name(&c.dialect)) {
+        crate::util::Compiled::Sql(s) => s,
+        crate::util::Compiled::Err(_) => return Outcome::skip("rejected_by_compiler").class("rejected_by_compiler"),
+        crate::util::Compiled::Panic(p) => return Outcome::skip(&format!("compiler_panic {}:{}", p.file, p.line)).class("compiler_panic"),
+    };
+    if !sql.contains("DISTINCT ON") {
+        out.classes.push("no_distinct_on".into());
+        return out;
+    }
+    out.nontrivial = true;
+    out.classes.push(format!("distinct_on:{}", c.dialect));
+    out.sample = Some(serde_json::json!({"prql": c.source, "dialect": c.dialect, "sql": sql}));
+    if let Some(why) = crate::util::distinct_on_lint(&sql, true) {
+        return Outcome::fail(
+            "a grouped `sort | take 1` is emitted as DISTINCT ON without the ORDER BY that selects the row",
+            serde_json::json!({"source": c.source, "dialect": c.dialect, "sql": sql, "why": why}),
+        );
+    }
+    out
+}
+
 pub fn run(ctx: &Ctx) -> i32 {
     ctx.run_replays(|c, case| replay_any(c, case, &ctx.known));
+    ctx.tape_search("distinct-on-order", ctx.n(3_000, 30_000), 12, gen_distinct_on_case, |c| check_distinct_on(c, &ctx.known));
     let cf = cfg();
     ctx.tape_search(
         "sorted-pipelines",
